@@ -481,6 +481,29 @@ func dependsOn(v ssa.Value, pred func(ssa.Value) bool) bool {
 				return true
 			}
 		}
+		// local aggregates (composite literals, variadic backing arrays): what was stored into them
+		if a, ok := v.(*ssa.Alloc); ok {
+			for _, r := range *a.Referrers() {
+				switch y := r.(type) {
+				case *ssa.Store:
+					if y.Addr == ssa.Value(a) && rec(y.Val) {
+						return true
+					}
+				case *ssa.IndexAddr:
+					for _, rr := range *y.Referrers() {
+						if st, ok := rr.(*ssa.Store); ok && st.Addr == ssa.Value(y) && rec(st.Val) {
+							return true
+						}
+					}
+				case *ssa.FieldAddr:
+					for _, rr := range *y.Referrers() {
+						if st, ok := rr.(*ssa.Store); ok && st.Addr == ssa.Value(y) && rec(st.Val) {
+							return true
+						}
+					}
+				}
+			}
+		}
 		// loads from locals: follow stores
 		if u, ok := v.(*ssa.UnOp); ok && u.Op == token.MUL {
 			if a, ok := u.X.(*ssa.Alloc); ok {
